@@ -7,6 +7,6 @@ def main():
         print('native', n, core.build_native(n))
     for t in ('minbzcat', 'bz01'):
         print('tool', t, core.build_repo_tool(t))
-    for v in ('hook', 'plain', 'asan', 'tsan'):
+    for v in ('hook', 'plain', 'asan', 'tsan', 'msan'):
         print('lbzip2', v, core.build_lbzip2(v))
     return 0
